@@ -40,10 +40,29 @@ def long_file(rng):
     lines = ['TITL ' + ' '.join(rng.choice(['long', 'well-known', 'title', 'x-ray', 'of', 'compound', 'P-1', 'a' * rng.randint(1, 30)]) for _ in range(rng.randint(1, 14)))[:rng.choice([40, 70, 74, 75])],
              'CELL 0.71073 10.5 11.2 12.3 90 95.5 90', 'ZERR 4 0.001 0.002 0.003 0.01 0.02 0.03', 'LATT 1', 'SYMM -X, 1/2+Y, 1/2-Z']
     expl = rng.random() < 0.5
-    lines.append('SFAC C H O N')
-    if expl:
+    mode = rng.choice(['after', 'after', 'first', 'twice', 'between']) if expl else None
+    expl2 = ['ZN'] + EXPL[1:]
+    if mode == 'first':
         lines += wrap_input(['SFAC'] + EXPL, rng)
-    lines.append('UNIT 16 20 4 2' + (' 1' if expl else ''))
+        lines.append('SFAC C H O N')
+        sfac_of_c = 2
+        nun = 5
+    elif mode == 'twice':
+        lines.append('SFAC C H O N')
+        lines += wrap_input(['SFAC'] + EXPL, rng)
+        lines += wrap_input(['SFAC'] + expl2, rng)
+        sfac_of_c, nun = 1, 6
+    elif mode == 'between':
+        lines.append('SFAC C H')
+        lines += wrap_input(['SFAC'] + EXPL, rng)
+        lines.append('SFAC O N')
+        sfac_of_c, nun = 1, 5
+    else:
+        lines.append('SFAC C H O N')
+        if expl:
+            lines += wrap_input(['SFAC'] + EXPL, rng)
+        sfac_of_c, nun = 1, (5 if expl else 4)
+    lines.append('UNIT ' + ' '.join(['16', '20', '4', '2', '1', '1'][:nun]))
     for _ in range(rng.randint(0, 2)):
         lines.append(('REM ' + ' '.join(rng.choice(['remark', 'well-known', 'x', 'semi-empirical', 'b' * rng.randint(1, 25)]) for _ in range(20)))[:rng.choice([30, 72, 78, 79, 80])].rstrip())
     body = []
@@ -75,7 +94,7 @@ def long_file(rng):
             u = ['%.5f' % rng.uniform(0.01, 0.09) for _ in range(3)] + ['%.5f' % rng.uniform(-0.01, 0.01) for _ in range(3)]
         else:
             u = ['%.5f' % rng.uniform(0.01, 0.09)]
-        lines += wrap_input([nm, '1', '%.6f' % rng.uniform(-1, 1), '%.6f' % rng.uniform(-1, 1), '%.6f' % rng.uniform(-1, 1), '11.00000'] + u, rng)
+        lines += wrap_input([nm, str(sfac_of_c), '%.6f' % rng.uniform(-1, 1), '%.6f' % rng.uniform(-1, 1), '%.6f' % rng.uniform(-1, 1), '11.00000'] + u, rng)
     for toks in body[k:]:
         lines += wrap_input(toks, rng, width=rng.choice([60, 76, 79]))
     lines += ['HKLF 4', 'END']
@@ -201,6 +220,15 @@ def run(ctx):
         if st != 'ok' or inn:
             common.add_violation(ctx, 'a valid file with long instructions raises', case, 'ok', '%s %s' % (st, inn))
             continue
+        if k % 4 and rng.random() < 0.5:
+            # long text put into the file through the editing API has to be wrapped like everything else
+            names = [a.name for a in shx.atoms.all_atoms if not a.qpeak]
+            with contextlib.redirect_stdout(io.StringIO()):
+                if rng.random() < 0.5 and names:
+                    shx.insert_anis(' '.join(rng.choice(names) for _ in range(rng.randint(25, 60))))
+                else:
+                    shx.add_line(shx.unit.position, 'SIMU 0.04 0.08 1.7 ' + ' '.join(rng.choice(names or ['C1']) for _ in range(rng.randint(25, 60))))
+            case = dict(case, edited='a long instruction was inserted through add_line / insert_anis')
         out = im.write_text(shx)
         ev += 1
         check_written(ctx, shx, out, case)
